@@ -631,3 +631,29 @@ func LeftQuotientLiteral(d *DFA, k string) *DFA {
 	}
 	return &DFA{A: d.A, Trans: d.Trans, Acc: d.Acc, Start: q}
 }
+
+// DropLast: {w : wc ∈ L(d) for some symbol c}.
+func DropLast(d *DFA) *DFA {
+	acc := make([]bool, d.N())
+	for q := 0; q < d.N(); q++ {
+		for _, t := range d.Trans[q] {
+			if d.Acc[t] {
+				acc[q] = true
+				break
+			}
+		}
+	}
+	return &DFA{A: d.A, Trans: d.Trans, Acc: acc, Start: d.Start}
+}
+
+// DropFirst: {w : cw ∈ L(d) for some symbol c}.
+func DropFirst(d *DFA) *DFA { return Reverse(DropLast(Reverse(d))) }
+
+// RightQuotientLiteral: {w : w·k ∈ L(d)}.
+func RightQuotientLiteral(d *DFA, k string) *DFA {
+	r := []rune(k)
+	for i, j := 0, len(r)-1; i < j; i, j = i+1, j-1 {
+		r[i], r[j] = r[j], r[i]
+	}
+	return Reverse(LeftQuotientLiteral(Reverse(d), string(r)))
+}
